@@ -760,3 +760,134 @@ def run_p17_p18(chk, repo):
                                           'is unchanged and re-reads as the old value')
     if n18 == 0:
         raise AnalysisError('P18: no comparison of eval_token(..) found in the record writers')
+
+
+def run_p19_p20(chk, repo):
+    """P19: the writer of a new $OMEGA/$SIGMA BLOCK(n) lists the lower triangle row by row (the order NM-TRAN reads, and the
+    order the reader side of A12 places them): the iteration space of its loop nest is enumerated for n = 3.
+    P20: in the writers of new records nothing but the end of the line follows the `; name` comment - an option written after
+    it (FIX) would be part of the comment"""
+    import copy
+    from sa import iterspace as IS
+    from sa.cfg import CFG
+    um = repo.module('pharmpy.model.external.nonmem.update')
+    P19 = chk.rule('P19', 'create_omega_block: the elements cm[row, col] are written row by row of the lower triangle', floor=1)
+    f = um.functions.get('create_omega_block')
+    if f is None:
+        raise AnalysisError('P19: create_omega_block not found')
+    n19 = 0
+    for sub in [x for x in ast.walk(f.node) if isinstance(x, ast.Subscript) and isinstance(x.slice, ast.Tuple)
+                and len(x.slice.elts) == 2 and all(isinstance(e, ast.Name) for e in x.slice.elts)]:
+        a, b = (e.id for e in sub.slice.elts)
+        nest, cur = [], sub
+        loops = [l_ for l_ in ast.walk(f.node) if isinstance(l_, ast.For)]
+        inside = [l_ for l_ in loops if any(x is sub for x in ast.walk(l_))]
+        inside.sort(key=lambda l_: sum(1 for _ in ast.walk(l_)), reverse=True)       # outermost first
+        bound = set()
+        for l_ in inside:
+            tn = {x.id for x in ast.walk(l_.target) if isinstance(x, ast.Name)}
+            nest.append(l_)
+            bound |= tn
+        if not ({a, b} <= bound):
+            continue
+        # drop outer loops that bind neither index
+        while nest and not ({x.id for x in ast.walk(nest[0].target) if isinstance(x, ast.Name)} & {a, b}):
+            nest.pop(0)
+
+        class Size(ast.NodeTransformer):
+            # the dimension of the block, however it is spelled (cm.rows, cm.shape[0], len(names)), is 3
+            def visit_Attribute(self, n_):
+                return ast.Constant(value=3)
+
+            def visit_Subscript(self, n_):
+                return ast.Constant(value=3) if not any(isinstance(x, ast.Name) and x.id in bound for x in ast.walk(n_)) \
+                    else self.generic_visit(n_)
+
+            def visit_Call(self, n_):
+                if isinstance(n_.func, ast.Name) and n_.func.id == 'len':
+                    return ast.Constant(value=3)
+                n_.args = [self.visit(x) for x in n_.args]
+                return n_
+        nest2 = []
+        for l_ in nest:
+            l2 = copy.copy(l_)
+            l2.iter = Size().visit(copy.deepcopy(l_.iter))
+            nest2.append(l2)
+        free = {x.id for l_ in nest2 for x in ast.walk(l_.iter) if isinstance(x, ast.Name)} - bound - set(IS.FUNCS)
+        try:
+            envs = IS.iterations(nest2, {nm: 3 for nm in free})
+        except IS.Unknown as e:
+            raise AnalysisError(f'P19: iteration space of the loop over {unparse(sub)} not evaluable ({e})')
+        seq = [(e_[a], e_[b]) for e_ in envs]
+        want = [(i, j) for i in range(3) for j in range(i + 1)]
+        n19 += 1
+        ok = seq == want
+        chk.instance(P19, f'create_omega_block: {unparse(sub)} visited in the order {seq} for n=3: row-wise lower triangle {ok}')
+        if not ok:
+            chk.violation(P19, um.rel, f.qualname, f'for {unparse(nest[0].target)} in {unparse(nest[0].iter)[:60]}: {unparse(sub)}',
+                          f'NM-TRAN reads a BLOCK row by row of the lower triangle ({want}); the values are written in the '
+                          f'order {seq}', line=nest[0].lineno,
+                          witness='create_joint_distribution over three etas with unequal variances: the written BLOCK(3) reads '
+                                  'back with a covariance on the diagonal; for n <= 2 the orders coincide')
+        break
+    if n19 == 0:
+        raise AnalysisError('P19: no cm[row, col] access inside a loop nest found in create_omega_block')
+
+    P20 = chk.rule('P20', 'writers of new records: after the `; name` comment only the end of the line is appended', floor=2)
+    n20 = 0
+    for fname in ('create_theta_record', 'create_omega_single', 'create_omega_block'):
+        g = um.functions.get(fname)
+        if g is None:
+            raise AnalysisError(f'P20: {fname} not found')
+        cfg = CFG(g.node)
+
+        def piece(nd):
+            """(accumulator, appended expression) for `acc += e` / `acc.append(e)` / `acc = acc + e`"""
+            a_ = nd.ast
+            if nd.kind != 'stmt' or a_ is None:
+                return None
+            if isinstance(a_, ast.AugAssign) and isinstance(a_.op, ast.Add) and isinstance(a_.target, ast.Name):
+                return a_.target.id, a_.value
+            if isinstance(a_, ast.Expr) and isinstance(a_.value, ast.Call) and isinstance(a_.value.func, ast.Attribute) \
+                    and a_.value.func.attr == 'append' and isinstance(a_.value.func.value, ast.Name) and a_.value.args:
+                return a_.value.func.value.id, a_.value.args[0]
+            if isinstance(a_, ast.Assign) and len(a_.targets) == 1 and isinstance(a_.targets[0], ast.Name) \
+                    and any(isinstance(x, ast.Name) and x.id == a_.targets[0].id for x in ast.walk(a_.value)):
+                return a_.targets[0].id, a_.value
+            return None
+
+        def literal(e):
+            return ''.join(str(c.value) for c in ast.walk(e) if isinstance(c, ast.Constant) and isinstance(c.value, str))
+        pieces = {nd.id: piece(nd) for nd in cfg.nodes.values()}
+        for nid, pc in pieces.items():
+            if pc is None or ';' not in literal(pc[1]) or '\n' in literal(pc[1]).split(';')[-1]:
+                continue
+            n20 += 1
+            acc = pc[0]
+            seen, stack, bad = set(), [m for m in cfg.g.successors(nid) if not (cfg.g[nid][m]['labels'] <= {'exc'})], None
+            while stack and bad is None:
+                m = stack.pop()
+                if m in seen:
+                    continue
+                seen.add(m)
+                q = pieces.get(m)
+                if q is not None and q[0] == acc:
+                    lit = literal(q[1])
+                    if '\n' in lit and not lit.split('\n')[0].strip():
+                        continue                      # the line ends here
+                    if isinstance(cfg.nodes[m].ast, ast.Assign) and '\n' in lit:
+                        continue
+                    bad = cfg.nodes[m]
+                    break
+                for k in cfg.g.successors(m):
+                    if not (cfg.g[m][k]['labels'] <= {'exc'}):
+                        stack.append(k)
+            chk.instance(P20, f'{fname}: after `{cfg.nodes[nid].text()[:50]}` only the line end follows: {bad is None}')
+            if bad is not None:
+                chk.violation(P20, um.rel, fname, f'{cfg.nodes[nid].text()[:50]} ... {bad.text()[:40]}',
+                              'text is appended to the line after the comment was opened: NM-TRAN and the parser read it as '
+                              'part of the comment', line=bad.line,
+                              witness='a new fixed, named $OMEGA record is written as `$OMEGA  0.2 ; OM_V FIX`: it reads back '
+                                      'unfixed')
+    if n20 < 2:
+        raise AnalysisError(f'P20: only {n20} comment fragments found in the record writers')
